@@ -243,6 +243,78 @@ def part_registered(ctx):
     ctx.case({'registered-defaults': True}, nontrivial_key='registered', kind='registered-defaults')
 
 
+def part_answers(ctx):
+    """ItemGrader.schema_answers on generated author formats (bare values, dictionaries with any subset of keys, tuples of alternatives,
+    invalid credits, unknown keys, non-text entries) vs the answers-validation model; canonical form and reconstruction checked directly"""
+    import mitxgraders as M
+    rng = ctx.rng
+    S = M.StringGrader
+    asks, meta = [], []
+
+    def gen_exp():
+        r = rng.random()
+        ent = lambda: rng.choice(['cat', 'dog', '', 'ünï']) if rng.random() < 0.9 else rng.choice([5, None, 2.5])
+        if r < 0.6:
+            e = ent(); return e, {'one': e if isinstance(e, str) else None}
+        l = tuple(ent() for _ in range(rng.randint(0, 3)))
+        return l, {'tuple': [x if isinstance(x, str) else None for x in l]}
+
+    def gen_one():
+        if rng.random() < 0.35:
+            py, js = gen_exp()
+            if isinstance(py, dict):
+                return None
+            return py, {'bare': js}
+        d, jd = {}, {'unknown': False}
+        if rng.random() < 0.92:
+            py, js = gen_exp(); d['expect'] = py; jd['expect'] = js
+        if rng.random() < 0.6:
+            g = rng.choice([0, 1, 0.5, 0.25, 1.0, 0.0, Fraction(1, 3), 1.5, -0.25, 2])
+            d['grade_decimal'] = g; jd['grade'] = frac_to_str(g)
+        if rng.random() < 0.4:
+            m = rng.choice(['', 'hint', 'two\nlines']); d['msg'] = m; jd['msg'] = m
+        if rng.random() < 0.5:
+            o = rng.choice(['computed', True, False, 'partial']); d['ok'] = o; jd['ok'] = o
+        if rng.random() < 0.08:
+            d['credit'] = 1; jd['unknown'] = True
+        return d, {'dict': jd}
+
+    for it in range(ctx.scale(400, 6000)):
+        n = rng.choice([1, 1, 2, 3])
+        items = [gen_one() for _ in range(n)]
+        pys = [p for p, _ in items]
+        # a single non-tuple answer may be given directly; several must be a tuple
+        fmt = pys[0] if n == 1 and rng.random() < 0.5 and not isinstance(pys[0], tuple) else tuple(pys)
+        if n == 1 and isinstance(fmt, tuple) and len(fmt) == 1 and isinstance(pys[0], tuple):
+            pass
+        k, g = D.run_impl(lambda: S(answers=fmt))
+        case = {'part': 'answers', 'answers': repr(fmt)}
+        if k == 'out':
+            a = g.config['answers']
+            impl = [{'expect': list(x['expect']), 'grade_decimal': frac_to_str(x['grade_decimal']), 'msg': x['msg'], 'ok': x['ok']} for x in a]
+            canon_ok = isinstance(a, tuple) and all(isinstance(x, dict) and set(x) == {'expect', 'grade_decimal', 'msg', 'ok'} and isinstance(x['expect'], tuple)
+                                                   and 0 <= x['grade_decimal'] <= 1 for x in a)
+            if not canon_ok:
+                ctx.violation('answers are not normalised to the canonical tuple of dictionaries with credits in [0,1]', case, impl=repr(a)[:200])
+            for x in a:
+                want = True if x['grade_decimal'] == 1 else (False if x['grade_decimal'] == 0 else 'partial')
+                if x['ok'] != want and x['grade_decimal'] != 1:
+                    ctx.violation('a validated answer carries an ok that contradicts its credit', case, impl=repr(x))
+            k2, g2 = D.run_impl(lambda: S(g.config))
+            if not (k2 == 'out' and g2 == g and g2.config['answers'] == a):
+                ctx.violation('a grader rebuilt from its canonical configuration differs', case, impl=repr(g2)[:100])
+        else:
+            impl = None
+            if not (g[1] in ('ConfigError', 'Error') or g[1].endswith('Invalid')):
+                ctx.violation('invalid answers raised %s instead of a configuration / validation error' % g[1], case, impl=g)
+        ctx.case(dict(case, accepted=k == 'out'), nontrivial_key=('ans', repr(fmt)) if n > 1 or isinstance(pys[0], dict) else None, kind='answers:' + ('ok' if k == 'out' else 'rejected'))
+        asks.append({'op': 'validate_answers', 'answers': [j for _, j in items]}); meta.append((case, impl))
+    if ctx.driver:
+        for (case, impl), o in zip(meta, ctx.driver.ask_many(asks)):
+            if o.get('out') != impl:
+                ctx.disagree('answers validation differs from the model', case, impl, o.get('out'))
+
+
 def part_cross(ctx):
     import mitxgraders as M
     from mitxgraders.helpers.calc.specify_domain import SpecifyDomain
@@ -355,6 +427,7 @@ def run(ctx):
     part_options(ctx)
     part_objects(ctx)
     part_cross(ctx)
+    part_answers(ctx)
     part_equiv(ctx)
     part_registered(ctx)
 
